@@ -160,7 +160,7 @@ Proof.
             intros _. exists st; exact Hrv.
           - destruct (IH _ _ _ _ Hrest n Hn) as [v [c' [Hin [S1 [S2 S3]]]]].
             exists v, c'; split; [right; exact Hin|]. split; [exact S1|]. split; [exact S2 | exact S3]. }
-        destruct (is_generic E (unwrap c) || should_unwrap c).
+        destruct (is_generic E (unwrap c) || should_unwrap c || is_ref c).
         -- destruct (expand E rest st path) as [[ps st1]|] eqn:Hrest; [|discriminate].
            inversion H; subst; clear H. apply (Hcommon (mkdefer c (unwrap c) var) ps); auto.
            unfold represents; cbn; repeat split; auto.
@@ -187,7 +187,7 @@ Proof.
     + destruct Hin as [Heq|Hin]; [inversion Heq; subst; congruence|]. eapply IH; eauto.
     + destruct (visitedb E c0 (unwrap c0) v0 st path && can_be_cyclic E (unwrap c0)) eqn:Hcut.
       * apply andb_true_iff in Hcut; destruct Hcut as [_ Hcc].
-        destruct (is_generic E (unwrap c0) || should_unwrap c0).
+        destruct (is_generic E (unwrap c0) || should_unwrap c0 || is_ref c0).
         -- destruct (expand E rest st path) as [[ps st1]|] eqn:Hrest; [|discriminate].
            inversion H; subst; clear H. destruct Hin as [Heq|Hin].
            ++ inversion Heq; subst. exists (mkdefer c (unwrap c) var); split; [left; reflexivity|].
@@ -473,7 +473,7 @@ Section Sim.
     - destruct (skip var c); [eapply IH; eauto|].
       rewrite <- (visitedb_sim E c var s1 s2 p1 p2 HS Hp M1 M2).
       destruct (visitedb E c (unwrap c) var s1 p1 && can_be_cyclic E (unwrap c)).
-      + destruct (is_generic E (unwrap c) || should_unwrap c).
+      + destruct (is_generic E (unwrap c) || should_unwrap c || is_ref c).
         * specialize (IH s1 s2 p1 p2 _ HS Hp M1 M2 eq_refl).
           destruct (expand E rest s1 p1) as [[ps s1']|]; subst r.
           -- destruct IH as [s2' [H2 Hs]]. rewrite H2. exists s2'; auto.
